@@ -9,12 +9,13 @@ import (
 )
 
 // C16 -- a failed write does not poison the store or the archive.
-// kind "fault": a store session (kinds 0..3 of k_store.go) with a fault script; observation per
-// step = (result, file changed, #index records).  The input also carries what the real
+// kind "fault": a store session (kinds 0..4 of k_store.go) with a fault script -- one entry per
+// underlying WriteAt/Write call and per Truncate call of a rewind; observation per step =
+// (result, file changed, #index records).  The input also carries what the real
 // Reader.Inspect(true) and BlockReader make of the implementation's final file.
 
-// realVerdict: (inspect_ok scan_ok (cid data)...) for the final bytes of a session
-func realVerdict(file []byte) Val {
+// c16RealVerdict: (inspect_ok scan_ok (cid data)...) for the final bytes of a session
+func c16RealVerdict(file []byte) Val {
 	if len(file) == 0 {
 		return VT("none")
 	}
@@ -42,41 +43,79 @@ func realVerdict(file []byte) Val {
 	return VL{vbool(inspOK), vbool(scanOK), blks}
 }
 
-type faultRun struct {
-	obs      Val
-	callLens []int
-	hits     int
-	file     []byte
+type c16Run struct {
+	obs        Val
+	callOffs   []int64
+	finalizeAt []int
+	callLens   []int // buffer length of every intercepted call (0 = a Truncate call)
+	hits       int
+	file       []byte
+	cut        int // harness kind 4: number of calls issued when the first partial section was abandoned (-1: never)
 }
 
-func runFaultImpl(work string, kind uint64, o wOpts, roots []cid.Cid, faults []int, ops VL) faultRun {
-	x := &storeExtra{afterStep: func(s *storeSession) []Val { return []Val{VN(s.indexCount())} }}
+// fsizeLimit > 0 (blockstore only, empty script): the first finalize operation runs the library's
+// own method under RLIMIT_FSIZE = fsizeLimit, so the *os.File itself cuts the write crossing that
+// offset short and fails it.
+func c16RunImpl(work string, kind uint64, o wOpts, roots []cid.Cid, faults []int, ops VL, fsizeLimit int64) c16Run {
+	cut := -1
+	x := &storeExtra{
+		fsizeLimit: fsizeLimit,
+		afterStep:  func(s *storeSession) []Val { return []Val{VN(s.indexCount())} },
+		afterStep2: func(s *storeSession, tag string, out Val, changed bool) {
+			if cut < 0 && changed && (tag == "put" || tag == "putmany") && s.ff != nil {
+				if l, ok := out.(VL); ok && len(l) > 0 && l[0] == VT("err") {
+					cut = len(s.ff.lens)
+				}
+			}
+		},
+	}
 	obs := runStoreImplX(work, kind, o, roots, faults, ops, x)
 	var file []byte
 	if l, ok := obs.(VL); ok && len(l) == 3 {
 		file = []byte(l[2].(VB))
 	}
-	return faultRun{obs, x.callLens, x.hits, file}
+	return c16Run{obs, x.callOffs, x.finalizeAt, x.callLens, x.hits, file, cut}
 }
 
-// harness kind 4 (storage on a WriterAt without Truncate, CARv1) is the model's kind 3: positioned
-// appends are sequential writes, and a partial section cannot be taken back either; the input says
-// kind 3 and carries a marker so that a replay uses the same writer again.
-func faultInput(kind uint64, o wOpts, roots []cid.Cid, faults []int, ops VL, real Val) Val {
+// Harness kind 4 is storage on a WriterAt WITHOUT a Truncate method.  In the model that is kind 2
+// with a script in which the Truncate of the rewind fails: the library issues no call there (the
+// type assertion fails), the model consumes one entry, so the input script gets a fault inserted at
+// that point (after it the store refuses everything, no entry is consumed any more).  A marker
+// makes a replay use the same writer again.
+func c16Input(kind uint64, o wOpts, roots []cid.Cid, faults []int, ops VL, real Val, cut int) Val {
 	if kind == 4 {
-		in := storeInput(3, o, roots, faults, ops).(VL)
+		eff := append([]int(nil), faults...)
+		if cut >= 0 {
+			for len(eff) < cut {
+				eff = append(eff, -1)
+			}
+			eff = append(eff[:cut:cut], append([]int{0}, eff[cut:]...)...)
+		}
+		in := storeInput(2, o, roots, eff, ops).(VL)
 		return append(in, real, VT("notrunc"))
 	}
 	in := storeInput(kind, o, roots, faults, ops).(VL)
 	return append(in, real)
 }
 
-func putOp(b Blk) Val { return VL{VT("put"), VB(b.Cid.Bytes()), VB(b.Data)} }
-func hasOp(b Blk) Val { return VL{VT("has"), VB(b.Cid.Bytes())} }
-func getOp(b Blk) Val { return VL{VT("get"), VB(b.Cid.Bytes())} }
+// replay: a blockstore input carrying (tfsize limit) as 8th field re-runs the RLIMIT_FSIZE variant
+// (its script describes what the limit does; the harness gets no script then)
+func c16Replay(work string, kind uint64, l VL) Val {
+	o, roots, faults, ops := wOptsFromVal(l[1]), cidsFromVal(l[2]), faultsFromVal(l[3]), l[4].(VL)
+	if len(l) > 7 {
+		if m, ok := l[7].(VL); ok && len(m) == 2 && m[0] == VT("fsize") {
+			return c16RunImpl(work, kind, o, roots, nil, ops, int64(m[1].(VN))).obs
+		}
+	}
+	return c16RunImpl(work, kind, o, roots, faults, ops, 0).obs
+}
 
-// plainBlocks: distinct sha2-256 raw blocks with the given data lengths
-func plainBlocks(r *RNG, lens []int) []Blk {
+func c16Put(b Blk) Val { return VL{VT("put"), VB(b.Cid.Bytes()), VB(b.Data)} }
+func c16Has(b Blk) Val { return VL{VT("has"), VB(b.Cid.Bytes())} }
+func c16Get(b Blk) Val { return VL{VT("get"), VB(b.Cid.Bytes())} }
+
+// c16Blocks: distinct sha2-256 raw blocks with the given data lengths
+func c16Blocks(r *RNG, lens []int) []Blk {
 	var out []Blk
 	for _, n := range lens {
 		d := r.Bytes(n)
@@ -91,7 +130,7 @@ func c16Rows(kind uint64) []wOpts {
 	v1.v1 = true
 	v1d := v1
 	v1d.dups = true
-	if kind >= 3 {
+	if kind == 3 {
 		return []wOpts{v1, v1d}
 	}
 	v2 := defaultWOpts
@@ -99,6 +138,9 @@ func c16Rows(kind uint64) []wOpts {
 	v2p.dpad, v2p.ipad = 7, 1
 	v2i := defaultWOpts
 	v2i.ipad, v2i.codec, v2i.storeID = 40, 0x0400, true
+	if kind == 4 {
+		return []wOpts{v2, v1, v2p}
+	}
 	return []wOpts{v2, v1, v2p, v2i, v1d}
 }
 
@@ -106,23 +148,23 @@ func c16Rows(kind uint64) []wOpts {
 // failed long section leaves bytes beyond everything written later), every put probed with
 // Has/Get and retried once, a batch on the blockstore, then Finalize.
 func c16Template(r *RNG, kind uint64, o wOpts, lens []int) ([]cid.Cid, VL) {
-	b := plainBlocks(r, lens)
+	b := c16Blocks(r, lens)
 	id := Blk{mkCid(1, 0x55, 0x00, -1, []byte{1, 2, 3}), []byte{1, 2, 3}}
 	roots := []cid.Cid{b[0].Cid}
-	ops := VL{putOp(b[0]), hasOp(b[0]), getOp(b[0]), putOp(b[0]),
-		putOp(b[1]), hasOp(b[1]), putOp(b[2]), getOp(b[2]), putOp(b[1])}
+	ops := VL{c16Put(b[0]), c16Has(b[0]), c16Get(b[0]), c16Put(b[0]),
+		c16Put(b[1]), c16Has(b[1]), c16Put(b[2]), c16Get(b[2]), c16Put(b[1])}
 	if kind == 0 {
 		ops = append(ops, VL{VT("putmany"), VL{VB(b[3].Cid.Bytes()), VB(b[3].Data)}, VL{VB(b[0].Cid.Bytes()), VB(b[0].Data)},
 			VL{VB(id.Cid.Bytes()), VB(id.Data)}, VL{VB(b[4].Cid.Bytes()), VB(b[4].Data)}},
-			hasOp(b[3]), hasOp(b[4]), getOp(b[4]))
+			c16Has(b[3]), c16Has(b[4]), c16Get(b[4]))
 	} else {
-		ops = append(ops, putOp(b[3]), putOp(id), hasOp(b[3]), getOp(b[3]))
+		ops = append(ops, c16Put(b[3]), c16Put(id), c16Has(b[3]), c16Get(b[3]))
 	}
-	ops = append(ops, VL{VT("finalize")}, hasOp(b[1]), VL{VT("finalize")})
+	ops = append(ops, VL{VT("finalize")}, c16Has(b[1]), VL{VT("finalize")})
 	return roots, ops
 }
 
-func scriptAt(n, i, k int) []int {
+func c16Script(n, i, k int) []int {
 	f := make([]int, n)
 	for j := range f {
 		f[j] = -1
@@ -142,15 +184,15 @@ func init() {
 				kind = 4
 			}
 		}
-		return runFaultImpl(c.Work, kind, wOptsFromVal(l[1]), cidsFromVal(l[2]), faultsFromVal(l[3]), l[4].(VL)).obs
+		return c16Replay(c.Work, kind, l)
 	}
 	registerReplay("fault", replay)
 
 	register("c16", func(c *Ctx) {
 		emit := func(kind uint64, o wOpts, roots []cid.Cid, faults []int, ops VL, tag string) {
-			fr := runFaultImpl(c.Work, kind, o, roots, faults, ops)
-			in := faultInput(kind, o, roots, faults, ops, realVerdict(fr.file))
-			// non-trivial: an injected fault actually hit a write call of the session
+			fr := c16RunImpl(c.Work, kind, o, roots, faults, ops, 0)
+			in := c16Input(kind, o, roots, faults, ops, c16RealVerdict(fr.file), fr.cut)
+			// non-trivial: an injected fault actually hit a write (or truncate) call of the session
 			c.Emit("fault", in, fr.obs, fr.hits > 0)
 			c.Count(tag)
 			if fr.hits > 0 {
@@ -160,7 +202,7 @@ func init() {
 			}
 		}
 
-		// ---- exhaustive: every write call x {error with 0 bytes, short writes} ----------------
+		// ---- exhaustive: every write call x {error with 0 bytes, short writes}, then the Truncate ----
 		for kind := uint64(0); kind < 5; kind++ {
 			rows := c16Rows(kind)
 			lensList := [][]int{{44, 3, 0, 9, 5}}
@@ -178,18 +220,50 @@ func init() {
 					first := 0
 					probe := []int{}
 					if kind == 0 {
+						// the open phase (pragma, header) is out of the hooks' reach
 						first = blockstoreOpenCalls(o)
-						probe = scriptAt(first+1, first+1, -1) // non-empty script: installs the wrapper
+						// a fault far beyond the session's calls: installs the wrapper and keeps the hooks'
+						// Finalize in use, so that the base run sees the index and header writes too
+						probe = c16Script(first+2001, first+2000, 0)
 					}
-					base := runFaultImpl(c.Work, kind, o, roots, probe, ops)
+					base := c16RunImpl(c.Work, kind, o, roots, probe, ops, 0)
 					emit(kind, o, roots, nil, ops, "exhaustive:fault-free")
+					if kind == 0 {
+						// the same through the hooks (Finalize via the wrapped writer): the copy of
+						// finalizeReadOnlyWithoutMutex in the hook file is checked against the same model
+						emit(kind, o, roots, probe, ops, "exhaustive:fault-free-via-hooks")
+					}
 					n := first + len(base.callLens)
+					if kind == 0 && !o.v1 && len(base.finalizeAt) > 0 {
+						// the index writes of the library's OWN Finalize (no hook copy involved) cut short by
+						// RLIMIT_FSIZE: call t of the base run fails after k bytes = file size limit offs[t]+k
+						// (the two header writes lie inside the file and cannot be failed this way)
+						f0 := base.finalizeAt[0]
+						for t := f0; t < len(base.callLens)-2; t++ {
+							ln := base.callLens[t]
+							for _, k := range []int{0, 1, ln / 2, ln - 1} {
+								if k < 0 || k >= ln || (k > 1 && k == ln/2 && ln/2 == ln-1) {
+									continue
+								}
+								limit := base.callOffs[t] + int64(k)
+								script := c16Script(n, first+t, k)
+								fr := c16RunImpl(c.Work, kind, o, roots, nil, ops, limit)
+								in := append(c16Input(kind, o, roots, script, ops, c16RealVerdict(fr.file), -1).(VL),
+									VL{VT("fsize"), VN(uint64(limit))})
+								c.Emit("fault", in, fr.obs, true)
+								c.Count("exhaustive:finalize-fault-own-method")
+								c.Count("fault-hit")
+							}
+						}
+					}
 					for i := first; i < n; i++ {
 						ln := base.callLens[i-first]
+						// every short length (and the error with nothing written); beyond 48 bytes a spread;
+						// the quick tier thins out the middle of long buffers
 						var ks []int
-						// every short length (and the error with nothing written); beyond 64 bytes a spread
 						for k := 0; k < ln; k++ {
-							if k < 48 || k >= ln-8 || k%7 == 0 {
+							dense := k < 6 || k >= ln-3 || (c.Thorough && (k < 48 || k >= ln-8))
+							if dense || k%7 == 0 {
 								ks = append(ks, k)
 							}
 						}
@@ -197,16 +271,26 @@ func init() {
 							ks = []int{0}
 						}
 						for _, k := range ks {
-							emit(kind, o, roots, scriptAt(n, i, k), ops, "exhaustive:one-fault")
+							emit(kind, o, roots, c16Script(n, i, k), ops, "exhaustive:one-fault")
 							if k == 0 {
 								c.Count("fault:error-no-bytes")
 							} else {
 								c.Count("fault:short-write")
 							}
 						}
+						// the write fails after some bytes AND the Truncate of the rewind fails (the next call)
+						if kind != 3 && kind != 4 {
+							for _, k := range []int{0, 1, ln / 2} {
+								if k < ln || k == 0 {
+									f := c16Script(n+1, i, k)
+									f[i+1] = 0
+									emit(kind, o, roots, f, ops, "exhaustive:write-and-truncate-fail")
+								}
+							}
+						}
 						// two faults: this call and a later one (the retry / the next section)
 						if i+2 < n {
-							f := scriptAt(n, i, ln/2)
+							f := c16Script(n, i, ln/2)
 							j := i + 1 + r.Intn(min(6, n-i-1))
 							f[j] = r.Intn(base.callLens[min(j, n-1)-first] + 1)
 							emit(kind, o, roots, f, ops, "exhaustive:two-faults")
@@ -217,12 +301,12 @@ func init() {
 		}
 
 		// ---- random histories with random multi-fault scripts, all option combinations ---------
-		n := 400 * c.Scale
+		n := 300 * c.Scale
 		for i := 0; i < n; i++ {
 			r := c.R.Fork()
 			kind := uint64(pick(r, []int{0, 0, 0, 1, 1, 2, 3, 4}))
 			o := genWOpts(r)
-			if kind >= 3 {
+			if kind == 3 {
 				o.v1 = true
 			}
 			alpha := storeAlphabet(r, 3+r.Intn(4))
@@ -238,12 +322,15 @@ func init() {
 			if kind == 0 {
 				first = blockstoreOpenCalls(o)
 			}
-			nf := first + 6 + r.Intn(60)
-			faults := make([]int, nf)
-			for j := range faults {
-				faults[j] = -1
-				if j >= first && r.Chance(10) {
-					faults[j] = r.Intn(45)
+			var faults []int
+			if !r.Chance(10) { // one in ten fault-free: the blockstore then finalizes through the plain methods
+				nf := first + 6 + r.Intn(60)
+				faults = make([]int, nf)
+				for j := range faults {
+					faults[j] = -1
+					if j >= first && r.Chance(10) {
+						faults[j] = r.Intn(45)
+					}
 				}
 			}
 			emit(kind, o, roots, faults, ops, "random")
